@@ -34,7 +34,8 @@ New(cmin, cmax, bins, minBins, maxBins, adaptive) ==
     IN [ min |-> cmin, max |-> mx, bins |-> bins, omin |-> cmin, omax |-> mx, obins |-> bins,
          minBins |-> minBins, maxBins |-> maxBins, adaptive |-> adaptive,
          bounds |-> Lin(cmin, mx, bins), psd |-> Seq0(bins),
-         prevPsd |-> Seq0(bins), prevBounds |-> Seq0(bins + 1), backed |-> FALSE, err |-> "" ]
+         prevPsd |-> Seq0(bins), prevBounds |-> Seq0(bins + 1), backed |-> FALSE, err |-> "",
+         recording |-> FALSE, rec |-> <<>>, hasRec |-> FALSE, clock |-> 0 ]
 
 Reset(s, resetBounds) ==
     LET t == IF resetBounds THEN [s EXCEPT !.min = s.omin, !.max = s.omax, !.bins = s.obins] ELSE s
@@ -79,8 +80,52 @@ Adjust(s, chk) ==
                       ELSE s1
         ELSE s1
 
-(* UpdatePBMEuler(time, newN): populations below one particle are dropped *)
-Update(s, v) == [s EXCEPT !.psd = [i \in 1..Len(v) |-> IF RLt(v[i], ROne) THEN RZero ELSE v[i]]]
+(* ---- recording of the distribution (enableRecording / record / resetRecordedData / removeRecordedData) ----
+   rec is the sequence of recorded rows [t, bounds, psd]; the code pads rows with zeros to a common width, the
+   initial row written by enableRecording is t = 0 with no grid (all zeros). *)
+ZeroRow == [t |-> RZero, bounds |-> <<>>, psd |-> <<>>]
+RecOn(s) == [s EXCEPT !.recording = TRUE, !.rec = <<ZeroRow>>, !.hasRec = TRUE]
+RecOff(s) == [s EXCEPT !.recording = FALSE]
+RecReset(s) == IF s.recording THEN [s EXCEPT !.rec = <<ZeroRow>>, !.hasRec = TRUE] ELSE [s EXCEPT !.rec = <<>>, !.hasRec = FALSE]
+RecRemove(s) == [s EXCEPT !.rec = <<>>, !.hasRec = FALSE]
+(* recording that is still switched on after removeRecordedData starts a new record (initial row first) *)
+Record(s, t) == IF ~s.recording THEN s
+                ELSE LET base == IF s.hasRec THEN s.rec ELSE <<ZeroRow>>
+                     IN  [s EXCEPT !.rec = Append(base, [t |-> t, bounds |-> s.bounds, psd |-> s.psd]), !.hasRec = TRUE]
+
+(* UpdatePBMEuler(time, newN): populations below one particle are dropped, then the distribution is recorded.
+   The drivers use a logical clock: the k-th update happens at time k. *)
+Update(s, v) == LET s1 == [s EXCEPT !.psd = [i \in 1..Len(v) |-> IF RLt(v[i], ROne) THEN RZero ELSE v[i]], !.clock = s.clock + 1]
+                IN  Record(s1, RI(s1.clock))
+
+(* np.interp(x, xp, fp, left=0, right=0) *)
+Interp0(x, xp, fp) == IF RLt(x, xp[1]) \/ RLt(xp[Len(xp)], x) THEN RZero ELSE Interp(x, xp, fp)
+(* the recorded grid of row k (stated behaviour: exactly what was recorded; the initial row stands for the original empty grid) *)
+Grab(s, k) == IF s.rec[k].bounds = <<>> THEN [bounds |-> Lin(s.omin, s.omax, s.obins), psd |-> Seq0(s.obins)]
+              ELSE [bounds |-> s.rec[k].bounds, psd |-> s.rec[k].psd]
+(* re-sample distribution a (psd on bounds ba) onto the grid bb, preserving its third moment *)
+Resample(psd, ba, bb) ==
+    LET oldV == Mom(psd, ba, 3)
+        den == [i \in 1..Len(psd) |-> RDiv(psd[i], Wid(ba)[i])]
+        raw == [i \in 1..(Len(bb) - 1) |-> RMul(Interp0(Mid(bb)[i], Mid(ba), den), Wid(bb)[i])]
+        newV == Mom(raw, bb, 3)
+    IN  IF newV # RZero THEN [i \in 1..(Len(bb) - 1) |-> RMul(raw[i], RDiv(oldV, newV))] ELSE Seq0(Len(bb) - 1)
+SetGrid(s, bd, psd) == [s EXCEPT !.bounds = bd, !.psd = psd, !.bins = Len(psd), !.min = bd[1], !.max = bd[Len(bd)]]
+(* setPSDtoRecordedTime(time) *)
+SetToTime(s, t) ==
+    IF ~s.recording \/ ~s.hasRec THEN s
+    ELSE LET n == Len(s.rec)
+         IN  IF RLe(t, s.rec[1].t) THEN SetGrid(s, Grab(s, 1).bounds, Grab(s, 1).psd)
+             ELSE IF RLe(s.rec[n].t, t) THEN SetGrid(s, Grab(s, n).bounds, Grab(s, n).psd)
+             ELSE LET u == CHOOSE k \in 2..n : RLt(t, s.rec[k].t) /\ \A j \in 1..(k - 1) : ~RLt(t, s.rec[j].t)
+                      up == Grab(s, u)  lo == Grab(s, u - 1)
+                      ut == s.rec[u].t  lt == s.rec[u - 1].t
+                      big == Len(up.psd) >= Len(lo.psd)
+                      bd == IF big THEN up.bounds ELSE lo.bounds
+                      upsd == IF big THEN up.psd ELSE Resample(up.psd, up.bounds, lo.bounds)
+                      lpsd == IF big THEN Resample(lo.psd, lo.bounds, up.bounds) ELSE lo.psd
+                      w == RDiv(RSub(t, lt), RSub(ut, lt))
+                  IN  SetGrid(s, bd, [i \in 1..Len(upsd) |-> RAdd(RMul(RSub(upsd[i], lpsd[i]), w), lpsd[i])])
 
 Backup(s) == [s EXCEPT !.prevPsd = s.psd, !.prevBounds = s.bounds, !.backed = TRUE]
 Revert(s) == [s EXCEPT !.psd = s.prevPsd, !.bounds = s.prevBounds, !.bins = Len(s.prevPsd),
@@ -124,6 +169,11 @@ Do(s, op) ==
       [] op.op = "loadfn"  -> LoadFn(s, op.c)
       [] op.op = "normalize" -> NormMoment(s, op.k)
       [] op.op = "moments" -> s
+      [] op.op = "recon"   -> RecOn(s)
+      [] op.op = "recoff"  -> RecOff(s)
+      [] op.op = "recreset" -> RecReset(s)
+      [] op.op = "recremove" -> RecRemove(s)
+      [] op.op = "settime" -> SetToTime(s, op.t)
 
 (* moment functions on a supplied distribution: depend only on N and the grid *)
 CumW(s, N, k, w, i) == RSumOver([q \in 1..Len(N) |-> RMul(RMul(N[q], RPowK(Mid(s.bounds)[q], k)), w[q])], 1..i)
@@ -150,6 +200,13 @@ Covers(s, t) ==   \* the new grid of t covers every populated class of s
 RemeshKeepsThirdMoment(s, t) == Covers(s, t) => REq(Mom(t.psd, t.bounds, 3), Mom(s.psd, s.bounds, 3))
 (* the named as-built deviation: every new class centre misses the (narrow) populated range *)
 RemeshLosesSpike(s, t) == Mom(s.psd, s.bounds, 3) # RZero /\ Mom(t.psd, t.bounds, 3) = RZero
+
+(* recording: one row per update while recording is on, times strictly increasing after the initial row; setting the
+   distribution to the latest recorded time restores exactly what was recorded *)
+RecordingSound(s) == s.hasRec /\ s.rec # <<>> =>
+    /\ \A k \in 2..Len(s.rec) : RLt(s.rec[k - 1].t, s.rec[k].t) \/ s.rec[k - 1].bounds = <<>>
+    /\ \A k \in 1..Len(s.rec) : s.rec[k].bounds = <<>> \/ Len(s.rec[k].bounds) = Len(s.rec[k].psd) + 1
+SetToLastRestores(s, t) == s.recording /\ s.hasRec /\ Len(s.rec) >= 2 => t.bounds = s.rec[Len(s.rec)].bounds /\ t.psd = s.rec[Len(s.rec)].psd
 
 AdaptiveBounded(s, t) == s.adaptive /\ s.minBins <= s.maxBins => t.bins <= s.maxBins
 ResetRestores(s, t) == /\ t.min = s.omin /\ t.max = s.omax /\ t.bins = s.obins
